@@ -546,3 +546,331 @@ Proof.
     unfold raw_view in IH. unfold view, expired.
     destruct (db_get d' k); [|discriminate]. injection IH as -> E. rewrite E. reflexivity.
 Qed.
+
+(* ---- every command has its argument keys as footprint ---- *)
+Ltac in_tac := solve [cbn; intuition].
+Ltac upd_leaf :=
+  cbn [snd];
+  repeat first [ apply upd_refl
+               | apply upd_set | apply upd_del | apply upd_set_ttl | apply upd_del_ttl
+               | apply upd_put_list ];
+  try in_tac.
+Ltac upd_auto := repeat break_match; upd_leaf.
+
+Lemma upd_set_apply_ttl K T d d' now k o : upd K T d d' -> In k K ->
+  upd K T d (set_apply_ttl d' now k o).
+Proof. intros U I. unfold set_apply_ttl. repeat break_match; upd_leaf; assumption. Qed.
+
+Lemma upd_exec_set T d now args : upd (tl args) T d (snd (exec_set d now args)).
+Proof.
+  unfold exec_set. repeat break_match; upd_leaf;
+    (apply upd_set_apply_ttl; [apply upd_set; [apply upd_refl|]|]); in_tac.
+Qed.
+Lemma upd_exec_get T d args : upd (tl args) T d (snd (exec_get d args)).
+Proof. unfold exec_get. upd_auto. Qed.
+Lemma upd_exec_getrange T d args : upd (tl args) T d (snd (exec_getrange d args)).
+Proof. unfold exec_getrange. upd_auto. Qed.
+Lemma upd_exec_setrange T d args : upd (tl args) T d (snd (exec_setrange d args)).
+Proof. unfold exec_setrange. upd_auto. Qed.
+Lemma upd_exec_mget T d args : upd (tl args) T d (snd (exec_mget d args)).
+Proof. unfold exec_mget. upd_auto. Qed.
+
+Lemma upd_mset_pairs_n K T d n : forall (l : list bytes) d1 d2, (List.length l <= n)%nat ->
+  incl l K -> upd K T d d1 -> mset_pairs d1 l = Some d2 -> upd K T d d2.
+Proof.
+  induction n as [|n IH]; intros l d1 d2 L I U E; destruct l as [|k [|v r]]; cbn in *;
+    try discriminate; try (injection E as <-; exact U); try lia.
+  eapply IH; [| |  |exact E]; [lia|intros x Hx; apply I; right; right; exact Hx|].
+  apply upd_set; [apply upd_del_ttl; [exact U|]|]; apply I; left; reflexivity.
+Qed.
+Lemma upd_exec_mset T d args : upd (tl args) T d (snd (exec_mset d args)).
+Proof.
+  unfold exec_mset. destruct args as [|c [|k [|v r]]]; try apply upd_refl.
+  destruct (mset_pairs d (k :: v :: r)) eqn:E; cbn [snd tl]; [|apply upd_refl].
+  eapply (upd_mset_pairs_n _ _ _ _ (k :: v :: r)); [apply le_n|apply incl_refl|apply upd_refl|exact E].
+Qed.
+Lemma upd_exec_setex T d now args : upd (tl args) T d (snd (exec_setex d now args)).
+Proof. unfold exec_setex. upd_auto. Qed.
+Lemma upd_exec_setnx T d args : upd (tl args) T d (snd (exec_setnx d args)).
+Proof. unfold exec_setnx. upd_auto. Qed.
+Lemma upd_exec_strlen T d args : upd (tl args) T d (snd (exec_strlen d args)).
+Proof. unfold exec_strlen. upd_auto. Qed.
+Lemma upd_incr_by K T d k n : In k K -> upd K T d (snd (incr_by d k n)).
+Proof. intros I. unfold incr_by. repeat break_match; upd_leaf; assumption. Qed.
+Lemma upd_exec_incr T d args : upd (tl args) T d (snd (exec_incr d args)).
+Proof. unfold exec_incr. repeat break_match; try apply upd_incr_by; upd_leaf. Qed.
+Lemma upd_exec_decr T d args : upd (tl args) T d (snd (exec_decr d args)).
+Proof. unfold exec_decr. repeat break_match; try apply upd_incr_by; upd_leaf. Qed.
+Lemma upd_exec_incrby T d args : upd (tl args) T d (snd (exec_incrby d args)).
+Proof. unfold exec_incrby. repeat break_match; try apply upd_incr_by; upd_leaf. Qed.
+Lemma upd_exec_decrby T d args : upd (tl args) T d (snd (exec_decrby d args)).
+Proof. unfold exec_decrby. repeat break_match; try apply upd_incr_by; upd_leaf. Qed.
+Lemma upd_exec_append T d args : upd (tl args) T d (snd (exec_append d args)).
+Proof. unfold exec_append. upd_auto. Qed.
+
+Lemma upd_del_keys K T d l : forall d1 n, incl l K -> upd K T d d1 -> upd K T d (snd (del_keys d1 l n)).
+Proof.
+  induction l as [|k r IH]; intros d1 n I U; cbn; [exact U|].
+  assert (Ik : In k K) by (apply I; left; reflexivity).
+  assert (Ir : incl r K) by (intros x Hx; apply I; right; exact Hx).
+  destruct (db_get d1 k); apply IH; try assumption; apply upd_del; assumption.
+Qed.
+Lemma upd_exec_del T d args : upd (tl args) T d (snd (exec_del d args)).
+Proof.
+  unfold exec_del. destruct args as [|c [|k r]]; try apply upd_refl.
+  pose proof (upd_del_keys (k :: r) T d (k :: r) d 0 (incl_refl _) (upd_refl _ _ _)) as U.
+  destruct (del_keys d (k :: r) 0). exact U.
+Qed.
+Lemma upd_exec_exists T d args : upd (tl args) T d (snd (exec_exists d args)).
+Proof. unfold exec_exists. upd_auto. Qed.
+Lemma upd_exec_keys T d args : upd (tl args) T d (snd (exec_keys d args)).
+Proof. unfold exec_keys. upd_auto. Qed.
+Lemma upd_exec_expire T d now args : upd (tl args) T d (snd (exec_expire d now args)).
+Proof. unfold exec_expire. cbv beta zeta. upd_auto. Qed.
+Lemma upd_exec_persist T d args : upd (tl args) T d (snd (exec_persist d args)).
+Proof. unfold exec_persist. upd_auto. Qed.
+Lemma upd_exec_ttl T d now args : upd (tl args) T d (snd (exec_ttl d now args)).
+Proof. unfold exec_ttl. upd_auto. Qed.
+Lemma upd_exec_type T d args : upd (tl args) T d (snd (exec_type d args)).
+Proof. unfold exec_type. upd_auto. Qed.
+Lemma upd_exec_rename T d args : upd (tl args) T d (snd (exec_rename d args)).
+Proof. unfold exec_rename. upd_auto. Qed.
+Lemma upd_exec_ping T d args : upd (tl args) T d (snd (exec_ping d args)).
+Proof. unfold exec_ping. upd_auto. Qed.
+
+Lemma upd_exec_llen T d args : upd (tl args) T d (snd (exec_llen d args)).
+Proof. unfold exec_llen. upd_auto. Qed.
+Lemma upd_exec_lindex T d args : upd (tl args) T d (snd (exec_lindex d args)).
+Proof. unfold exec_lindex. upd_auto. Qed.
+Lemma upd_push l c T d args : upd (tl args) T d (snd (push_cmd l c d args)).
+Proof. unfold push_cmd. cbv beta zeta. upd_auto. Qed.
+Lemma upd_pop l T d args : upd (tl args) T d (snd (pop_cmd l d args)).
+Proof. unfold pop_cmd. cbv beta zeta. upd_auto. Qed.
+Lemma upd_exec_lset T d args : upd (tl args) T d (snd (exec_lset d args)).
+Proof. unfold exec_lset. upd_auto. Qed.
+Lemma upd_exec_lrem T d args : upd (tl args) T d (snd (exec_lrem d args)).
+Proof. unfold exec_lrem. upd_auto. Qed.
+Lemma upd_exec_ltrim T d args : upd (tl args) T d (snd (exec_ltrim d args)).
+Proof. unfold exec_ltrim. upd_auto. Qed.
+Lemma upd_exec_lrange T d args : upd (tl args) T d (snd (exec_lrange d args)).
+Proof. unfold exec_lrange. upd_auto. Qed.
+Lemma upd_exec_lpos T d args : upd (tl args) T d (snd (exec_lpos d args)).
+Proof. unfold exec_lpos. upd_auto. Qed.
+Lemma upd_exec_lmove T d args : upd (tl args) T d (snd (exec_lmove d args)).
+Proof. unfold exec_lmove. cbv beta zeta. upd_auto. Qed.
+
+Lemma upd_bpop_scan l K T d keys : forall d1, incl keys K -> upd K T d d1 ->
+  upd K T d (snd (bpop_scan l d1 keys)).
+Proof.
+  induction keys as [|k r IH]; intros d1 I U; cbn; [exact U|].
+  assert (Ik : In k K) by (apply I; left; reflexivity).
+  assert (Ir : incl r K) by (intros x Hx; apply I; right; exact Hx).
+  repeat break_match; cbn [snd]; try (apply IH; assumption); try exact U;
+    apply upd_put_list; assumption.
+Qed.
+
+Lemma incl_removelast {A} (l : list A) : incl (removelast l) l.
+Proof.
+  induction l as [|x r IH]; [intros y []|]. destruct r as [|y r']; [intros z []|].
+  change (removelast (x :: y :: r')) with (x :: removelast (y :: r')).
+  intros z [->|Hz]; [left; reflexivity|right; apply IH; exact Hz].
+Qed.
+
+Lemma upd_exec_bpop l T d nowms args : (nowms + 100) / 1000 <= T ->
+  upd (tl args) T d (snd (exec_bpop l d nowms args)).
+Proof.
+  intros L. unfold exec_bpop. destruct args as [|c rest]; [apply upd_refl|].
+  repeat break_match; try apply upd_refl.
+  apply upd_bpop_scan; [apply incl_removelast|apply upd_purge; [apply upd_refl|exact L]].
+Qed.
+
+Definition family_upd (f : family) : Prop :=
+  forall d now nowms n args hint T r d', (nowms + 100) / 1000 <= T ->
+    f d now nowms n args hint = Some (r, d') -> upd (tl args) T d d'.
+
+Ltac snd_of H := match type of H with ?x = (_, ?d') => change d' with (snd (x)) end.
+
+Lemma upd_strings : family_upd strings_dispatch.
+Proof.
+  intros d now nowms n args hint T r d' L. unfold strings_dispatch.
+  repeat match goal with
+  | |- context [if is n ?c then _ else _] => destruct (is n c)
+  end; intros E; try discriminate; injection E as E;
+  apply (f_equal snd) in E; cbn [snd] in E; subst d';
+  first [ apply upd_exec_set | apply upd_exec_get | apply upd_exec_getrange | apply upd_exec_setrange
+        | apply upd_exec_mget | apply upd_exec_mset | apply upd_exec_setex | apply upd_exec_setnx
+        | apply upd_exec_strlen | apply upd_exec_incr | apply upd_exec_decr | apply upd_exec_incrby
+        | apply upd_exec_decrby | apply upd_exec_append | apply upd_exec_del | apply upd_exec_exists
+        | apply upd_exec_keys | apply upd_exec_expire | apply upd_exec_persist | apply upd_exec_ttl
+        | apply upd_exec_type | apply upd_exec_rename | apply upd_exec_ping ].
+Qed.
+
+Lemma upd_lists : family_upd lists_dispatch.
+Proof.
+  intros d now nowms n args hint T r d' L. unfold lists_dispatch.
+  repeat match goal with
+  | |- context [if is n ?c then _ else _] => destruct (is n c)
+  end; intros E; try discriminate; injection E as E;
+  apply (f_equal snd) in E; cbn [snd] in E; subst d';
+  first [ apply upd_exec_llen | apply upd_exec_lindex | apply upd_exec_lpos | apply upd_pop
+        | apply upd_push | apply upd_exec_lset | apply upd_exec_lrem | apply upd_exec_ltrim
+        | apply upd_exec_lrange | apply upd_exec_lmove | apply upd_exec_bpop; exact L ].
+Qed.
+
+Lemma families_upd : Forall family_upd families.
+Proof. unfold families. repeat constructor; [apply upd_strings|apply upd_lists]. Qed.
+
+Lemma upd_dispatch fs : Forall family_upd fs ->
+  forall d now nowms n args hint T, (nowms + 100) / 1000 <= T ->
+    upd (tl args) T d (snd (dispatch fs d now nowms n args hint)).
+Proof.
+  induction 1 as [|f r Hf Hr IH]; intros d now nowms n args hint T L; cbn; [apply upd_refl|].
+  destruct (f d now nowms n args hint) as [[rep d']|] eqn:E; [|apply IH; exact L].
+  cbn [snd]. eapply Hf; eassumption.
+Qed.
+
+Theorem exec_cmd_upd d now nowms args hint T : (nowms + 100) / 1000 <= T ->
+  upd (tl args) T d (snd (exec_cmd d now nowms args hint)).
+Proof.
+  intros L. unfold exec_cmd. destruct args as [|n r]; [apply upd_refl|].
+  apply upd_dispatch; [apply families_upd|exact L].
+Qed.
+
+Theorem exec_upd d now nowms args hint T : now <= T -> (nowms + 100) / 1000 <= T ->
+  upd (tl args) T d (snd (exec d now nowms args hint)).
+Proof.
+  intros L1 L2. unfold exec. eapply upd_trans; [apply upd_purge; [apply upd_refl|exact L1]|].
+  apply exec_cmd_upd; exact L2.
+Qed.
+
+(* well-formedness is an invariant of every step *)
+Theorem exec_wf d now nowms args hint : db_wf d -> db_wf (snd (exec d now nowms args hint)).
+Proof.
+  intros W. eapply upd_wf; [exact W|].
+  apply (exec_upd d now nowms args hint (Z.max now ((nowms + 100) / 1000))); lia.
+Qed.
+
+(* the instant at which a step has finished looking at the clock: BLPOP/BRPOP poll 100 ms later *)
+Definition step_end (now nowms : Z) : Z := Z.max now ((nowms + 100) / 1000).
+
+Theorem exec_frame d now nowms args hint k t : db_wf d -> ~ In k (tl args) ->
+  step_end now nowms <= t ->
+  view (snd (exec d now nowms args hint)) t k = view d t k.
+Proof.
+  intros W N L. unfold step_end in L. eapply upd_frame; [exact W| |exact N|apply Z.le_refl].
+  apply exec_upd; lia.
+Qed.
+
+Theorem exec_frame_persistent d now nowms args hint k v : db_wf d -> ~ In k (tl args) ->
+  raw_view d k = Some (v, None) ->
+  raw_view (snd (exec d now nowms args hint)) k = Some (v, None).
+Proof.
+  intros W N R. eapply upd_frame_persistent; [exact W| |exact N|exact R].
+  apply (exec_upd d now nowms args hint (step_end now nowms)); unfold step_end; lia.
+Qed.
+
+(* ================================================================== programs *)
+Record step := mkStep { s_now : Z; s_nowms : Z; s_args : list bytes; s_hint : reply }.
+
+Fixpoint run (d : db) (p : list step) : list reply * db :=
+  match p with
+  | [] => ([], d)
+  | s :: r =>
+    let '(rep, d1) := exec d (s_now s) (s_nowms s) (s_args s) (s_hint s) in
+    let '(reps, d2) := run d1 r in
+    (rep :: reps, d2)
+  end.
+
+Definition names_key (k : bytes) (s : step) : Prop := In k (tl (s_args s)).
+
+Lemma run_cons d s r :
+  run d (s :: r) =
+  (fst (exec d (s_now s) (s_nowms s) (s_args s) (s_hint s))
+     :: fst (run (snd (exec d (s_now s) (s_nowms s) (s_args s) (s_hint s))) r),
+   snd (run (snd (exec d (s_now s) (s_nowms s) (s_args s) (s_hint s))) r)).
+Proof.
+  cbn. destruct (exec d (s_now s) (s_nowms s) (s_args s) (s_hint s)) as [rep d1].
+  cbn [fst snd]. destruct (run d1 r). reflexivity.
+Qed.
+
+Lemma run_app d p q :
+  run d (p ++ q) = (fst (run d p) ++ fst (run (snd (run d p)) q), snd (run (snd (run d p)) q)).
+Proof.
+  revert d. induction p as [|s r IH]; intros d.
+  - cbn. destruct (run d q); reflexivity.
+  - rewrite <- app_comm_cons, !run_cons. cbn [fst snd]. rewrite IH. reflexivity.
+Qed.
+
+Theorem run_wf p : forall d, db_wf d -> db_wf (snd (run d p)).
+Proof.
+  induction p as [|s r IH]; intros d W; [exact W|].
+  rewrite run_cons. cbn [snd]. apply IH. apply exec_wf. exact W.
+Qed.
+
+(* frame over programs: a key that no command names looks the same afterwards, at every clock
+   not earlier than the end of every step *)
+Theorem run_frame p k t : forall d, db_wf d ->
+  Forall (fun s => ~ names_key k s) p ->
+  Forall (fun s => step_end (s_now s) (s_nowms s) <= t) p ->
+  view (snd (run d p)) t k = view d t k.
+Proof.
+  induction p as [|s r IH]; intros d W N L; [reflexivity|].
+  rewrite run_cons. cbn [snd]. inversion N; subst. inversion L; subst.
+  rewrite IH by (try apply exec_wf; assumption).
+  apply exec_frame; assumption.
+Qed.
+
+Theorem run_frame_persistent p k v : forall d, db_wf d ->
+  Forall (fun s => ~ names_key k s) p ->
+  raw_view d k = Some (v, None) ->
+  raw_view (snd (run d p)) k = Some (v, None).
+Proof.
+  induction p as [|s r IH]; intros d W N R; [exact R|].
+  rewrite run_cons. cbn [snd]. inversion N; subst.
+  apply IH; [apply exec_wf; exact W|assumption|].
+  apply exec_frame_persistent; assumption.
+Qed.
+
+(* a key without deadline is visible at every clock *)
+Lemma view_persistent d k v now : raw_view d k = Some (v, None) -> view d now k = Some (v, None).
+Proof.
+  unfold raw_view, view, expired. destruct (db_get d k); [|discriminate].
+  intros E. injection E as -> E. rewrite E. reflexivity.
+Qed.
+
+(* ---- an expired key is indistinguishable from a deleted one ---- *)
+Definition veq_from (t : Z) (d1 d2 : db) : Prop :=
+  forall now, t <= now -> forall k, view d1 now k = view d2 now k.
+
+Lemma eqv_veq_from t a b : db_eqv a b -> veq_from t a b.
+Proof. intros H now _ k. apply eqv_view. exact H. Qed.
+
+Definition step_rel (s : step) (r1 r2 : reply) : Prop :=
+  if is_keys (cmd_name (s_args s)) then reply_perm r1 r2 else r1 = r2.
+
+Fixpoint replies_rel (p : list step) (l1 l2 : list reply) : Prop :=
+  match p, l1, l2 with
+  | [], [], [] => True
+  | s :: p', r1 :: l1', r2 :: l2' => step_rel s r1 r2 /\ replies_rel p' l1' l2'
+  | _, _, _ => False
+  end.
+
+Theorem run_veq t p : forall d1 d2, db_wf d1 -> db_wf d2 -> veq_from t d1 d2 ->
+  Forall (fun s => t <= s_now s) p ->
+  replies_rel p (fst (run d1 p)) (fst (run d2 p)) /\ veq_from t (snd (run d1 p)) (snd (run d2 p)).
+Proof.
+  induction p as [|s r IH]; intros d1 d2 W1 W2 V C; [split; [exact I|exact V]|].
+  rewrite !run_cons. cbn [fst snd replies_rel]. inversion C as [|? ? Cs Cr]; subst.
+  destruct (exec_view_determined d1 d2 (s_now s) (s_nowms s) (s_args s) (s_hint s) W1 W2
+              (V (s_now s) Cs)) as [Hr He].
+  destruct (IH _ _ (exec_wf d1 _ _ _ _ W1) (exec_wf d2 _ _ _ _ W2) (eqv_veq_from t _ _ He) Cr) as [R1 R2].
+  split; [split; [exact Hr|exact R1]|exact R2].
+Qed.
+
+Lemma veq_from_del_expired d k t : db_wf d -> db_ttl d k = Some t -> veq_from t d (db_del d k).
+Proof.
+  intros W E now L k0. unfold view, expired. rewrite db_get_del, db_ttl_del.
+  destruct (bytes_eqb_spec k0 k) as [->|N]; [|reflexivity].
+  rewrite E. replace (t <=? now) with true by (symmetry; apply Z.leb_le; exact L).
+  destruct (db_get d k); reflexivity.
+Qed.
